@@ -7,6 +7,7 @@
 
 #include "PyImathStringArrayRegister.h"
 #include "PyImathStringArray.h"
+#include <vector>
 #include "PyImathExport.h"
 
 namespace PyImath {
@@ -172,10 +173,14 @@ StringArrayT<T>::setitem_string_vector(PyObject *index, const StringArrayT<T> &d
         PyErr_SetString(PyExc_IndexError, "Dimensions of source do not match destination");
         throw_error_already_set();
     }
-    for (size_t i=0; i<slicelength; ++i) {
-        StringTableIndex di = _table.intern(data._table.lookup(data[i]));
-        (*this)[start+i*step] = di;
-    }
+    // read all of the source before writing: data may be this array
+    // (a[::-1] = a)
+    std::vector<StringTableIndex> src;
+    src.reserve (slicelength);
+    for (size_t i=0; i<slicelength; ++i)
+        src.push_back (_table.intern(data._table.lookup(data[i])));
+    for (size_t i=0; i<slicelength; ++i)
+        (*this)[start+i*step] = src[i];
 }
 
 template<class T>
